@@ -197,24 +197,26 @@ Section Support.
 
   (** one pass of
         for connected_idx in <array>:
-            vertex_diff = vertices[connected_idx] - vertices[best_idx]
-            projected_length = search_direction.dot(vertex_diff)
-            if projected_length > PROJECTION_LENGTH_EPSILON:
-                best_idx = connected_idx ; (converged = False)
-      returns [None] on an out-of-range vertex index *)
-  Fixpoint scan (d : V3 F) (vs : list (V3 F)) (best : nat) (moved : bool) (l : list nat)
-    : option (nat * bool) :=
+            projection = search_direction.dot(vertices[connected_idx])
+            if projection > best_projection + PROJECTION_LENGTH_EPSILON:
+                best_idx = connected_idx ; best_projection = projection ; (converged = False)
+      (the code since /repo 7cb1be3: the projection of the best vertex is carried along and has
+      to increase strictly; before, the test was  d.(v_j - v_best) > eps  and could cycle in
+      binary64).  Returns [None] on an out-of-range vertex index. *)
+  Fixpoint scan (d : V3 F) (vs : list (V3 F)) (best : nat) (bp : F) (moved : bool) (l : list nat)
+    : option (nat * F * bool) :=
     match l with
-    | [] => Some (best, moved)
+    | [] => Some (best, bp, moved)
     | j :: l' =>
-        match nth_error vs j, nth_error vs best with
-        | Some vj, Some vb =>
-            if EPSILON10 <? dot d (vsub vj vb) then scan d vs j true l' else scan d vs best moved l'
-        | _, _ => None
+        match nth_error vs j with
+        | Some vj =>
+            let pr := dot d vj in
+            if (bp + EPSILON10) <? pr then scan d vs j pr true l' else scan d vs best bp moved l'
+        | None => None
         end
     end.
 
-  Fixpoint climb (fuel : nat) (d : V3 F) (vs : list (V3 F)) (conn : list (nat * list nat)) (best : nat)
+  Fixpoint climb (fuel : nat) (d : V3 F) (vs : list (V3 F)) (conn : list (nat * list nat)) (best : nat) (bp : F)
     : climb_result :=
     match fuel with
     | 0 => ClimbOutOfFuel
@@ -222,20 +224,25 @@ Section Support.
         match lookup best conn with
         | None => ClimbKeyError
         | Some nb =>
-            match scan d vs best false nb with
+            match scan d vs best bp false nb with
             | None => ClimbIndexError
-            | Some (b, true) => climb fuel' d vs conn b
-            | Some (b, false) => ClimbOk b
+            | Some (b, bp', true) => climb fuel' d vs conn b bp'
+            | Some (b, _, false) => ClimbOk b
             end
         end
     end.
 
-  (** hill_climb_mesh_extreme(search_direction, start_idx, vertices, connections, shortcuts) *)
+  (** hill_climb_mesh_extreme(search_direction, start_idx, vertices, connections, shortcuts):
+        best_projection = search_direction.dot(vertices[start_idx])   (IndexError if out of range) *)
   Definition hill_climb (fuel : nat) (d : V3 F) (start : nat) (vs : list (V3 F))
              (conn : list (nat * list nat)) (shortcuts : list nat) : climb_result :=
-    match scan d vs start false shortcuts with
+    match nth_error vs start with
     | None => ClimbIndexError
-    | Some (b, _) => climb fuel d vs conn b
+    | Some v0 =>
+        match scan d vs start (dot d v0) false shortcuts with
+        | None => ClimbIndexError
+        | Some (b, bp, _) => climb fuel d vs conn b bp
+        end
     end.
 
   (** shortcut_connections of __init__: argmax / argmin of each coordinate column *)
